@@ -111,11 +111,24 @@ HWalkCase(p) ==
 \* ---- HFields ----------------------------------------------------------------------------------------------
 Nbr == HTag(6, 1, 8, 0)
 HFieldsParams == { [kind |-> n, v |-> v, pos |-> pos, arch |-> a] : n \in GettableKinds, v \in {0, 1, 2, 3, 4}, pos \in {0, 1}, a \in {0, 4} }
+\* positional views: the tag at walk position i seen through every sized kind's struct (all accessors where the padded
+\* sizes agree - the cast's condition -, typ() alone where they do not: a controlled panic), the end tag behind it seen
+\* as the two 8-byte kinds and as an entry tag, and a position behind the walk
+SizedKindSeq == <<"address", "entry", "console", "hfb", "module_align", "hefi_bs", "entry_efi32", "entry_efi64", "relocatable">>
+HViewCalls(kind, i) ==
+  Concat([k \in 1..Len(SizedKindSeq) |->
+            LET V == SizedKindSeq[k] IN
+            IF RoundUp8(HeaderKind(V).wire) = RoundUp8(HConformantSize(kind))
+            THEN [j \in 1..Len(HAllFields(V)) |-> [op |-> "hview", view |-> V, i |-> i, f |-> HAllFields(V)[j]]]
+            ELSE <<[op |-> "hview", view |-> V, i |-> i, f |-> "typ"]>>])
+  \o <<[op |-> "hview", view |-> "module_align", i |-> i + 1, f |-> "typ"], [op |-> "hview", view |-> "hefi_bs", i |-> i + 1, f |-> "flags"],
+       [op |-> "hview", view |-> "hefi_bs", i |-> i + 1, f |-> "size"], [op |-> "hview", view |-> "entry", i |-> i + 1, f |-> "typ"],
+       [op |-> "hview", view |-> "entry", i |-> i + 2, f |-> "typ"]>>
 HFieldsCase(p) ==
   [mem |-> HdrImage(p.arch, IF p.pos = 0 THEN <<HConformantTag(p.kind, p.v), HTag(0, 0, 8, 0)>>
                             ELSE <<HTag(7, 1, 8, 0), HConformantTag(p.kind, p.v), HTag(0, 0, 8, 0)>>),
    al |-> 0,
-   calls |-> <<[op |-> "hload"]>> \o AccCalls \o HReadCalls(p.kind) \o <<[op |-> "hdbg", what |-> "hdr"]>>,
+   calls |-> <<[op |-> "hload"]>> \o AccCalls \o HReadCalls(p.kind) \o <<[op |-> "hdbg", what |-> "hdr"]>> \o HViewCalls(p.kind, p.pos),
    desc |-> [area |-> "hfields"] @@ p]
 
 \* ---- HGetters: multiplicity and order --------------------------------------------------------------------------
